@@ -214,6 +214,97 @@ class _SubstName(ast.NodeTransformer):
         return node
 
 
+class _Lower:
+    """Statement-level lowering of expression forms into the statement forms they abbreviate (applied to every parsed module):
+      x = [E for v in IT if C]  /  return [...]     ->   x = []; for v in IT: if C: x.append(E)            (list comprehensions)
+      x = A if C else B  /  return A if C else B     ->   if C: x = A else: x = B
+      return any(E for v in IT) / all(...)           ->   for v in IT: if E: return True ... return False
+      x = functools.reduce(operator.or_, GEN, INIT)  ->   x = INIT; for v in IT: x = x | E                  (or_/and_/add/xor)
+    Only where the expression is the whole right-hand side of an assignment to a name or the whole returned value."""
+    OPS = {'or_': ast.BitOr, 'and_': ast.BitAnd, 'add': ast.Add, 'xor': ast.BitXor, 'mul': ast.Mult}
+
+    def __init__(self):
+        self.k = 0
+
+    def run(self, tree):
+        for n in ast.walk(tree):
+            for fld in ('body', 'orelse', 'finalbody'):
+                v = getattr(n, fld, None)
+                if isinstance(v, list) and v and isinstance(v[0], ast.stmt):
+                    setattr(n, fld, self.block(v))
+            if isinstance(n, ast.Try):
+                for h in n.handlers:
+                    h.body = self.block(h.body)
+        return tree
+
+    def tmp(self, base):
+        self.k += 1
+        return '%s__%d' % (base, self.k)
+
+    def block(self, stmts):
+        out = []
+        for s in stmts:
+            r = self.stmt(s)
+            out.extend(r if r is not None else [s])
+        return out
+
+    def loops(self, gens, inner, at):
+        body = inner
+        for g in reversed(gens):
+            for c in reversed(g.ifs):
+                body = [ast.copy_location(ast.If(test=c, body=body, orelse=[]), at)]
+            body = [ast.copy_location(ast.For(target=g.target, iter=g.iter, body=body, orelse=[], type_comment=None), at)]
+        return body
+
+    def stmt(self, s):
+        if isinstance(s, ast.Assign) and len(s.targets) == 1 and isinstance(s.targets[0], ast.Name):
+            name, value, ret = s.targets[0].id, s.value, False
+        elif isinstance(s, ast.Return) and s.value is not None:
+            name, value, ret = None, s.value, True
+        else:
+            return None
+        L = lambda node: ast.copy_location(node, s)
+        mk = lambda n_, ctx: L(ast.Name(id=n_, ctx=ctx))
+        if isinstance(value, ast.ListComp) and not any(g.is_async for g in value.generators):
+            v = name or self.tmp('result')
+            if name and any(isinstance(x, ast.Name) and x.id == name for x in ast.walk(value)):
+                return None
+            app = L(ast.Expr(value=L(ast.Call(func=L(ast.Attribute(value=mk(v, ast.Load()), attr='append', ctx=ast.Load())), args=[value.elt], keywords=[]))))
+            out = [L(ast.Assign(targets=[mk(v, ast.Store())], value=L(ast.List(elts=[], ctx=ast.Load()))))] + self.loops(value.generators, [app], s)
+            if ret:
+                out.append(L(ast.Return(value=mk(v, ast.Load()))))
+            return [ast.fix_missing_locations(x) for x in out]
+        if isinstance(value, ast.IfExp):
+            mkv = (lambda e: L(ast.Return(value=e))) if ret else (lambda e: L(ast.Assign(targets=[mk(name, ast.Store())], value=e)))
+            a, b = self.stmt(mkv(value.body)) or [mkv(value.body)], self.stmt(mkv(value.orelse)) or [mkv(value.orelse)]
+            return [ast.fix_missing_locations(L(ast.If(test=value.test, body=a, orelse=b)))]
+        if ret and isinstance(value, ast.Call) and isinstance(value.func, ast.Name) and value.func.id in ('any', 'all') and len(value.args) == 1 \
+                and isinstance(value.args[0], (ast.GeneratorExp, ast.ListComp)) and not value.keywords:
+            g = value.args[0]
+            is_any = value.func.id == 'any'
+            test = g.elt if is_any else L(ast.UnaryOp(op=ast.Not(), operand=g.elt))
+            inner = [L(ast.If(test=test, body=[L(ast.Return(value=L(ast.Constant(value=is_any))))], orelse=[]))]
+            out = self.loops(g.generators, inner, s) + [L(ast.Return(value=L(ast.Constant(value=not is_any))))]
+            return [ast.fix_missing_locations(x) for x in out]
+        if isinstance(value, ast.Call) and (isinstance(value.func, ast.Attribute) and value.func.attr == 'reduce' or isinstance(value.func, ast.Name) and value.func.id == 'reduce') \
+                and len(value.args) == 3 and not value.keywords:
+            f, it, init = value.args
+            opn = f.attr if isinstance(f, ast.Attribute) else (f.id if isinstance(f, ast.Name) else None)
+            if opn in self.OPS:
+                v = name or self.tmp('result')
+                if isinstance(it, (ast.GeneratorExp, ast.ListComp)):
+                    gens, elt = it.generators, it.elt
+                else:
+                    t = self.tmp('item')
+                    gens, elt = [ast.comprehension(target=mk(t, ast.Store()), iter=it, ifs=[], is_async=0)], mk(t, ast.Load())
+                upd = L(ast.Assign(targets=[mk(v, ast.Store())], value=L(ast.BinOp(left=mk(v, ast.Load()), op=self.OPS[opn](), right=elt))))
+                out = [L(ast.Assign(targets=[mk(v, ast.Store())], value=init))] + self.loops(gens, [upd], s)
+                if ret:
+                    out.append(L(ast.Return(value=mk(v, ast.Load()))))
+                return [ast.fix_missing_locations(x) for x in out]
+        return None
+
+
 class SourceSet:
     def __init__(self, root=None, overlay=None):
         self.root = root or DEFAULT_ROOT
@@ -243,6 +334,7 @@ class SourceSet:
                 t = ast.parse(self.text(rel), filename=rel)
             except SyntaxError as e:
                 raise AnalysisError('cannot parse %s: %s' % (rel, e))
+            t = _Lower().run(t)
             t = _Canon().visit(t)
             t = _AliasInline().run(t)
             from .tables import expand_tables
